@@ -1,7 +1,235 @@
 import KM.Driver.Core
-/-! Driver for C11 (stub until the property's model is built). -/
-namespace KM.Driver.C11
+import KM.Model.IPBlock
+/-! Driver for C11: line protocol between checks/C11.py, the Go harnesses and `KM.IPBlock`.
 
-def handler (_mode : String) : Option Handler := none
+Text forms — address `a.b.c.d`; block `a.b.c.d/n`; block list `b,b,…` or `-`; bit string
+`n:hex` (`_` = no bytes); wire bit string `pad:hex`; family `afihex=bs,bs,…` (`=-` none);
+families joined by `;` (`-` none); extension `absent` | `unparsable` | `P<families>` (after
+asn1.Unmarshal) | `W<wire families>` (before); peer `noport` | `unparsed` | `v4:a.b.c.d` |
+`m4:a.b.c.d` | `v6`; env three bits `denied automation revoked`. -/
+namespace KM.Driver.C11
+open KM.Util KM.IPBlock
+
+/-! ### parsing -/
+
+def pNat (s : String) : Option Nat := if s.isEmpty then none else s.toNat?
+
+def pByte (s : String) : Option UInt8 := do
+  let n ← pNat s
+  if n < 256 then some (UInt8.ofNat n) else none
+
+def pIP (s : String) : Option IP4 :=
+  match s.splitOn "." with
+  | [a, b, c, d] => do some ⟨← pByte a, ← pByte b, ← pByte c, ← pByte d⟩
+  | _ => none
+
+def pBlock (s : String) : Option Block :=
+  match s.splitOn "/" with
+  | [ip, n] => do some ⟨← pIP ip, ← pNat n⟩
+  | _ => none
+
+def pList {α} (f : String → Option α) (sep : String) (s : String) : Option (List α) :=
+  if s == "-" then some [] else (s.splitOn sep).mapM f
+
+def pNet (s : String) : Option Net :=
+  if s == "other" then some .other else (pBlock s).map .v4
+
+def pHexBytes (s : String) : Option (List UInt8) :=
+  if s == "_" then some [] else unhexBytes s.toList
+
+def pBitStr (s : String) : Option BitStr :=
+  match s.splitOn ":" with
+  | [n, h] => do some ⟨← pNat n, ← pHexBytes h⟩
+  | _ => none
+
+def pWireBits (s : String) : Option WireBits :=
+  match s.splitOn ":" with
+  | [n, h] => do some ⟨← pNat n, ← pHexBytes h⟩
+  | _ => none
+
+def pFamily (s : String) : Option Family :=
+  match s.splitOn "=" with
+  | [a, l] => do some ⟨← pHexBytes a, ← pList pBitStr "," l⟩
+  | _ => none
+
+def pFamilyW (s : String) : Option FamilyW :=
+  match s.splitOn "=" with
+  | [a, l] => do some ⟨← pHexBytes a, ← pList pWireBits "," l⟩
+  | _ => none
+
+/-- an extension argument: parsed form, or wire form together with its wire families -/
+def pExt (s : String) : Option (Ext × Option (List FamilyW)) :=
+  if s == "absent" then some (.absent, none)
+  else if s == "unparsable" then some (.unparsable, none)
+  else if s.startsWith "P" then do
+    let fs ← pList pFamily ";" (s.drop 1).toString
+    some (.parsed fs, none)
+  else if s.startsWith "W" then do
+    let ws ← pList pFamilyW ";" (s.drop 1).toString
+    some (Ext.ofWire ws, some ws)
+  else none
+
+def pPeer (s : String) : Option Peer :=
+  if s == "noport" then some .noPort
+  else if s == "unparsed" then some .unparsed
+  else if s == "v6" then some .v6
+  else if s.startsWith "v4:" then (pIP (s.drop 3).toString).map .v4
+  else if s.startsWith "m4:" then (pIP (s.drop 3).toString).map .v4mapped
+  else none
+
+def pEnv (s : String) : Option Env :=
+  match s.toList with
+  | [a, b, c] => do
+    let f := fun (ch : Char) => if ch == '1' then some true else if ch == '0' then some false else none
+    some ⟨← f a, ← f b, ← f c⟩
+  | _ => none
+
+/-! ### printing -/
+
+def sIP (a : IP4) : String := s!"{a.b0.toNat}.{a.b1.toNat}.{a.b2.toNat}.{a.b3.toNat}"
+def sBlock (b : Block) : String := s!"{sIP b.ip}/{b.ones}"
+def sList {α} (f : α → String) (sep : String) (l : List α) : String :=
+  if l.isEmpty then "-" else sep.intercalate (l.map f)
+def sBytes (l : List UInt8) : String := if l.isEmpty then "_" else hexB l
+def sBitStr (s : BitStr) : String := s!"{s.bitLen}:{sBytes s.bytes}"
+def sWireBits (w : WireBits) : String := s!"{w.pad}:{sBytes w.bytes}"
+def sFamily (f : Family) : String := s!"{sBytes f.afi}={sList sBitStr "," f.addrs}"
+def sFamilyW (f : FamilyW) : String := s!"{sBytes f.afi}={sList sWireBits "," f.addrs}"
+def sExt : Ext → String
+  | .absent => "absent"
+  | .unparsable => "unparsable"
+  | .parsed fs => "P" ++ sList sFamily ";" fs
+def sResBool : Res Bool → String
+  | .ok true => "t" | .ok false => "f" | .err => "err" | .panic => "PANIC"
+def sResBlocks : Res (List Block) → String
+  | .ok bs => "ok:" ++ sList sBlock "," bs | .err => "err" | .panic => "PANIC"
+def sRefresh : Refresh → String
+  | .issued cn nets => s!"issued {hex (String.ofList cn)} {sList sBlock "," nets}"
+  | .status c => s!"status {c}"
+  | .crashed => "crashed"
+
+/-- status `certGenHandler` answers with the same credential (it authenticates, it does not extract) -/
+def sCertgen : Auth → String
+  | .user _ => "200" | .forbidden => "403" | .serverError => "500" | .crashed => "PANIC"
+
+def readers (e : Ext) (p : Peer) : String :=
+  s!"restricted={boolStr e.restricted} verify={sResBool (verify e p)} extract={sResBlocks (extract e)}"
+
+/-! ### model mode -/
+
+def model : List String → String
+  | ["dec", n, h] =>
+    match pNat n, pHexBytes h with
+    | some n, some bs =>
+      match decode ⟨n, bs⟩ with
+      | .ok b => "ok " ++ sBlock b
+      | .err => "err"
+      | .panic => "PANIC"
+    | _, _ => "bad-op"
+  | ["enc", b] =>
+    match pBlock b with
+    | some b => if b.ones ≤ 32 then sBitStr (encode b) else "bad-op"
+    | none => "bad-op"
+  | ["ver", e, p] =>
+    match pExt e, pPeer p with
+    | some (e, w), some p =>
+      (match w with | some _ => s!"parse={sExt e} " | none => "") ++ readers e p
+    | _, _ => "bad-op"
+  | ["mint", ns, p] =>
+    match pList pNet "," ns, pPeer p with
+    | some ns, some p =>
+      match mintFams ns, mintExt ns with
+      | some fs, some e => s!"mint=ok wire=W{sList sFamilyW ";" (marshalFams fs)} parse={sExt e} {readers e p}"
+      | _, _ => "mint=err"
+    | _, _ => "bad-op"
+  | ["ref", cn, e, p, env] =>
+    match unhex cn, pExt e, pPeer p, pEnv env with
+    | some cn, some (e, _), some p, some env =>
+      s!"{sRefresh (refresh cn.toList e p env)} certgen={sCertgen (ipAuth cn.toList e p env)}"
+    | _, _, _, _ => "bad-op"
+  | ["refm", cn, ns, p, env] =>
+    match unhex cn, pList pNet "," ns, pPeer p, pEnv env with
+    | some cn, some ns, some p, some env =>
+      match mintExt ns with
+      | some e => s!"{sRefresh (refresh cn.toList e p env)} certgen={sCertgen (ipAuth cn.toList e p env)}"
+      | none => "minterr"
+    | _, _, _, _ => "bad-op"
+  | _ => "bad-op"
+
+/-! ### judge mode: the predicates of the theorems, applied to what the implementation answered -/
+
+/-- right-hand side of `c11_member` -/
+def insideAny (bs : List Block) (p : Peer) : Bool :=
+  p != .noPort && bs.any fun b =>
+    match p.ip4 with
+    | some a => a.and (mask b.ones) == b.ip
+    | none => false
+
+/-- a bit string is a well-formed IPv4 prefix: at most 32 bits and enough bytes (`c11_malformed`) -/
+def wellFormed (s : BitStr) : Bool := s.bitLen ≤ 32 && (s.bitLen + 7) / 8 ≤ s.bytes.length
+
+/-- the block a well-formed bit string denotes, computed without the decoder: first ⌈n/8⌉ bytes,
+zero-filled -/
+def blockOf (s : BitStr) : Block :=
+  let bs := s.bytes.take ((s.bitLen + 7) / 8)
+  ⟨⟨bs.getD 0 0, bs.getD 1 0, bs.getD 2 0, bs.getD 3 0⟩, s.bitLen⟩
+
+def allowedBy (fs : List Family) (p : Peer) : Bool :=
+  fs.any fun f => f.afi == v4afi && f.addrs.any fun s => wellFormed s && contains (blockOf s) p
+
+def judge : List String → String
+  -- jmint <nets> <peer> <verify> <extract> : certificate minted by the implementation for <nets>
+  | ["jmint", ns, p, v, x] =>
+    match pList pBlock "," ns, pPeer p with
+    | some bs, some p =>
+      if v == "PANIC" || x == "PANIC" then "viol panic"
+      else if !bs.all (fun b => b.ones ≤ 32) then "bad-op"
+      else
+        let canonical := bs.all fun b => decide b.canonical
+        let inside := insideAny (bs.map Block.canon) p
+        if v == "t" && !inside then "viol admitted-outside-netblocks"
+        else if canonical && p != .noPort && inside && v != "t" then "viol refused-inside-netblocks"
+        else if canonical && v == "err" && p != .noPort then "viol error-on-wellformed-certificate"
+        else if canonical && x != sResBlocks (.ok bs) then "viol extract-differs-from-minted"
+        else if !canonical && x != "err" && x != sResBlocks (.ok (bs.map Block.canon)) then "viol extract-neither-error-nor-canonical"
+        else "ok"
+    | _, _ => "bad-op"
+  -- jext <ext as asn1 parsed it> <peer> <verify> <extract>
+  | ["jext", e, p, v, x] =>
+    match pExt e, pPeer p with
+    | some (e, _), some p =>
+      if v == "PANIC" || x == "PANIC" then "viol panic"
+      else match e with
+        | .absent => if v == "t" then "viol admitted-without-extension" else if x != "err" then "viol extract-without-extension" else "ok"
+        | .unparsable => if v != "err" then "viol unparsable-not-error" else if x != "err" then "viol extract-unparsable" else "ok"
+        | .parsed fs =>
+          if v == "t" && !(p != .noPort && allowedBy fs p) then "viol admitted-by-malformed-or-foreign-block"
+          else if x.startsWith "ok:" && !(fs.all fun f => f.afi == v4afi && f.addrs.all wellFormed) then
+            "viol extracted-from-malformed-extension"
+          else if x.startsWith "ok:" && x != sResBlocks (.ok (fs.flatMap fun f => f.addrs.map blockOf)) then
+            "viol extracted-blocks-differ"
+          else "ok"
+    | _, _ => "bad-op"
+  -- jref <cn> <nets of the presented certificate (canonical)> <peer> <env> <status> <new cn> <new nets>
+  | ["jref", cn, ns, p, env, st, ncn, nn] =>
+    match pList pBlock "," ns, pPeer p, pEnv env with
+    | some bs, some p, some env =>
+      let inside := insideAny bs p
+      let good := !env.denied && env.automation && !env.revoked
+      if st == "PANIC" then "viol panic"
+      else if st == "200" && !inside then "viol refreshed-from-outside"
+      else if st == "200" && !good then "viol refreshed-despite-denied-or-foreign-identity"
+      else if st == "200" && ncn != cn then "viol refreshed-identity-differs"
+      else if st == "200" && nn != sList sBlock "," bs then "viol refreshed-netblocks-differ"
+      else if st != "200" && inside && good then "viol refresh-refused-inside"
+      else if st != "200" && !(st.startsWith "4" || st.startsWith "5") then "viol unexpected-status"
+      else "ok"
+    | _, _, _ => "bad-op"
+  | _ => "bad-op"
+
+def handler (mode : String) : Option Handler :=
+  if mode == "model" then some (.pure model)
+  else if mode == "judge" then some (.pure judge)
+  else none
 
 end KM.Driver.C11
